@@ -127,7 +127,7 @@ KNOWN = {
     "magic_sequence": {4: 2, 5: 1, 6: 0, 7: 1, 8: 1, 9: 1, 10: 1},
     "magic_square_all": {3: 8}, "magic_square_sb": {3: 1, 4: 880},
     "circuit": {2: 1, 3: 2, 4: 6, 5: 24, 6: 120},                                     # (n-1)!
-    "golomb": {4: 6, 5: 11, 6: 17, 7: 25},                                            # OEIS A003022
+    "golomb": {2: 1, 3: 3, 4: 6, 5: 11, 6: 17, 7: 25, 8: 34, 9: 44, 10: 55},                                            # OEIS A003022
 }
 
 
